@@ -220,6 +220,7 @@ structure CompileResult where
   code : Bytes
   map : Option SourceMapV
   mappings : List Mapping       -- the recorded absolute mappings (not part of the Go result; for C08)
+  comments : List Bytes := []   -- ghost: the comment entries written, in order (for C15)
   ok : Bool
 
 def compile (cfg : CompCfg) (prog : StmtList) : CompileResult :=
@@ -229,6 +230,7 @@ def compile (cfg : CompCfg) (prog : StmtList) : CompileResult :=
   { code := if cfg.pretty then cleanEmptyLines cw.out else cw.out,
     map := cw.mapper.map Mapper.sourceMap,
     mappings := (cw.mapper.map (·.mappings)).getD [],
+    comments := cw.clog,
     ok := cw.ok }
 
 /-- `debug.ToString(node)` for statements / expressions: a zero `CodeWriter` -/
